@@ -539,6 +539,18 @@ struct Thr {
                 cell[j] = from_bits<std::decay_t<decltype(cell[0])>>(bits[j]);
         }
     }
+    static constexpr bool ref_out = std::is_lvalue_reference_v<typename B::covariant_output_t::vector_t>;
+    // write through the view at a coordinate of the view's own coordinate type
+    static void view_write_at(const void *view, const double *x, const uint64_t *bits)
+    {
+        if constexpr (ref_out) {
+            const V &v = *static_cast<const V *>(view);
+            typename F::coordinate_t c = make_real_coord<typename F::coordinate_t>(x);
+            auto &cell = v.at(c);
+            for (int j = 0; j < Tr::M; ++j)
+                cell[j] = from_bits<std::decay_t<decltype(cell[0])>>(bits[j]);
+        }
+    }
     static void view_read(const void *view, const std::size_t *c, uint64_t *bits)
     {
         if constexpr (Tr::view_writable) {
@@ -558,6 +570,8 @@ struct Thr {
         o.view_lookup = &view_lookup;
         o.view_write = &view_write;
         o.view_read = &view_read;
+        o.ref_output = ref_out;
+        o.view_write_at = &view_write_at;
     }
 };
 
